@@ -275,6 +275,12 @@ func Harness_C02_MapProbeResult() {
 		result.Entries = entries[:n-1]
 	}
 	request := ProbeRequest{ChannelKey: "k", ChannelID: ch.ChannelID{ID: "c", Type: 2}, Leader: 1, Follower: 2, Indexes: indexes}
+	if !request.Valid() {
+		// duplicate probe offsets: refused by ProbeRequest.Valid / validProbeIndexes before any load
+		// (both callers go through it); mapProbeResult itself keeps only the last duplicate
+		zzsym.Reach("invalid-request")
+		return
+	}
 	mapped, ok := mapProbeResult(request, result)
 	if ok {
 		zzsym.Reach("forwarded")
@@ -393,7 +399,7 @@ func c02SealedMutation(p string, base uint64, prevTerm uint64, prevDigest ch.Ent
 		return Mutation{}, false
 	}
 	zzsym.Assume(sealed.Digest != c02Garbage)
-	return Mutation{ChannelKey: c02Key, ChannelID: c02ID, Manifest: sealed, Records: recs, Class: MutationClass(zzsym.Choice(p+".class", 3))}, true
+	return Mutation{ChannelKey: c02Key, ChannelID: c02ID, Manifest: sealed, Records: recs}, true
 }
 
 func c02LoadAll(adapter ReplicaStore, max int) LoadResult {
@@ -424,7 +430,11 @@ func Harness_C02_AdapterOnMemoryStore() {
 	leo := uint64(0)
 	var tail ch.ProposalManifest
 	for k := 0; k < n; k++ {
-		mu, ok := c02SealedMutation("h", leo, tail.LeaderTerm, tail.Digest, 1+zzsym.Choice("h.count", 2))
+		cnt := 1
+		if k == 0 {
+			cnt = 1 + zzsym.Choice("h.count", 2) // a second proposal (thorough) has one record
+		}
+		mu, ok := c02SealedMutation("h", leo, tail.LeaderTerm, tail.Digest, cnt)
 		zzsym.Assume(ok)
 		zzsym.Assume(mu.Manifest.CommandID != tail.CommandID)
 		if k == n-1 {
@@ -461,6 +471,7 @@ func Harness_C02_AdapterOnMemoryStore() {
 		return
 	}
 	mu.Committed = zzsym.U64("q.committed")
+	mu.Class = MutationClass(zzsym.Choice("q.class", 3))
 	res := adapter.Sync(context.Background(), []Mutation{mu})
 	zzsym.Assert(len(res) == 1, "Sync result is not position-aligned")
 	r := res[0]
